@@ -29,6 +29,7 @@ type Base struct {
 var PrivateHelpers = map[string][]string{
 	"method":     {"(rec).calc"},
 	"genericlen": {"glen"},
+	"constrecv":  {"(lvl).tag", "(lv2).tag"},
 }
 
 // ManualEdit is a hand-written behaviour-changing rewrite of a base.
@@ -59,12 +60,6 @@ func hs2(z string) string { return "!" + z }
 func pair(v int) (int, int) { return v + 1, v - 1 }
 
 func sub2(c, d int) int { return c - d*2 }
-
-type lv2 int
-
-func (v lvl) tag() int { return int(v) + 1 }
-
-func (v lv2) tag() int { return int(v) * 2 }
 `
 
 const sig = "(a, b int, s []int, x, y string) (int, string)"
@@ -739,9 +734,21 @@ func glen[M ~map[int]int](m M, n int) int {
 		Base{Name: "F", ID: "constrecv", Src: "func F" + sig + ` {
 	return lvl(3).tag() + a, x
 }
+
+type lv2 int
+
+func (v lvl) tag() int { return int(v) + 1 }
+
+func (v lv2) tag() int { return int(v) * 2 }
 `, Manual: []ManualEdit{{"the receiver constant is converted to another type of the same package whose method has the same name (lvl(3).tag() -> lv2(3).tag())", "func F" + sig + ` {
 	return lv2(3).tag() + a, x
 }
+
+type lv2 int
+
+func (v lvl) tag() int { return int(v) + 1 }
+
+func (v lv2) tag() int { return int(v) * 2 }
 `}}},
 		Base{Name: "F", ID: "localtype", Src: "func F" + sig + ` {
 	type cell int8
